@@ -59,6 +59,8 @@ class Exec(ExprMixin, CallMixin):
         self.bound_stack = []
         self.field_type_cache = {}
         self.used_anchors = set()
+        self.assumed_lemmas = set()
+        self.entry_axioms = []
 
     # ------------------------------------------------------------------ field typing
     def field_info(self, cls, field):
@@ -81,6 +83,26 @@ class Exec(ExprMixin, CallMixin):
         self.field_type_cache[ck] = res
         return res
 
+    def entry_heap_created(self, key, arr):
+        """well-formedness of the heap at function entry: every stored reference is an allocated object (or None)"""
+        fld, _, idx = key.rpartition("#")
+        ts = self.reg.field_types.get(fld)
+        if ts is None:
+            return
+        ty = parse_type(ts)
+        a0 = z3.Int("alloc@entry")
+        r = z3.Int("wf!r")
+        j = z3.Int("wf!j")
+        if isinstance(ty, TRef) and idx == "0":
+            self.entry_axioms.append(z3.ForAll([r], z3.And(arr[r] >= 0, arr[r] <= a0)))
+        elif isinstance(ty, TList) and isinstance(ty.elem, TRef) and idx == "0":
+            self.entry_axioms.append(
+                z3.ForAll([r, j], z3.Implies(z3.And(0 <= j, j < z3.Length(arr[r])), z3.And(arr[r][j] > 0, arr[r][j] <= a0)))
+            )
+        elif isinstance(ty, TDict) and isinstance(ty.val, TRef) and idx == "1":
+            k = z3.Const("wf!k", arr.range().domain())
+            self.entry_axioms.append(z3.ForAll([r, k], z3.And(arr[r][k] >= 0, arr[r][k] <= a0)))
+
     # ------------------------------------------------------------------ obligations
     def oblige(self, st, goal, name, kind="assert", line=None, props=None):
         if self.in_spec:
@@ -91,7 +113,7 @@ class Exec(ExprMixin, CallMixin):
         self.obligations.append(
             Obligation(
                 f"{fi.qualname}:{name}",
-                st.hyps(),
+                list(self.entry_axioms) + st.hyps(),
                 goal,
                 kind,
                 line=line,
@@ -108,6 +130,7 @@ class Exec(ExprMixin, CallMixin):
             raise Unsupported(f"target {contract.target} not found in the repository")
         self.cur = (fi, contract)
         self.entry_heap = {}
+        self.entry_axioms = []
         self.exc_out = []
         self.npaths = 0
         st = State(self)
@@ -156,8 +179,49 @@ class Exec(ExprMixin, CallMixin):
             st.assume(self.eval_spec(r, st, st.locals, st.old))
         self.family_cls = family_cls
         outs = self.exec_block(fi.node.body, st)
+        self.cover = {"exits": 0, "reachable": 0, "unknown": 0}
         for s2, o in outs:
             self.check_exit(s2, o, fi, contract)
+            if o.kind in ("normal", "return"):
+                # cover query: requires + assumed cuts must be satisfiable and the exit reachable (vacuity guard)
+                self.cover["exits"] += 1
+                sv = z3.Solver()
+                sv.set("timeout", 3000)
+                sv.add(s2.pc)
+                try:
+                    r = sv.check()
+                except z3.Z3Exception:
+                    r = z3.unknown
+                if r == z3.sat:
+                    self.cover["reachable"] += 1
+                elif r == z3.unknown:
+                    self.cover["unknown"] += 1
+        return self.obligations
+
+    def verify_lemma(self, lm):
+        """obligations of a SpecLemma: in an arbitrary state, requires => each ensures clause"""
+        from .source import FuncInfo
+
+        dummy = ast.parse(f"def lemma_{lm.name}():\n    pass").body[0]
+        fi = FuncInfo(f"lemma.{lm.name}", "ascmhl.history", None, dummy, "", "")
+        from .contracts import Contract
+
+        self.cur = (fi, Contract(fi.qualname, props=lm.props))
+        self.entry_heap = {}
+        self.entry_axioms = []
+        st = State(self)
+        for pn, pt in lm.params.items():
+            v = from_consts(parse_type(pt), pn)
+            self.assume_wellformed(st, v)
+            st.locals[pn] = v
+        st.old = st.copy()
+        for r in lm.requires:
+            st.assume(self.eval_spec(r, st, st.locals, st.old))
+        for i, e in enumerate(lm.ensures):
+            g = self.eval_spec(e, st, st.locals, st.old)
+            for j, gj in enumerate(self.split_conj(g)):
+                self.oblige(st, gj, f"ensures[{i}]" + (f".{j}" if j else ""), kind="lemma", props=lm.props)
+        self.cover = {"exits": 1, "reachable": 1, "unknown": 0}
         return self.obligations
 
     def _loops_in_order(self, fnode):
@@ -194,6 +258,11 @@ class Exec(ExprMixin, CallMixin):
             for i in v.items:
                 self.assume_wellformed(st, i)
         elif isinstance(v, VDict):
+            if isinstance(v.vty, TRef):
+                jj = z3.Int(fresh_name("j"))
+                kk = z3.Const(fresh_name("k"), v.keys.sort().basis())
+                st.pc.append(z3.ForAll([jj], z3.Implies(z3.And(0 <= jj, jj < z3.Length(v.keys)), z3.Select(v.m, v.keys[jj]) > 0)))
+                st.pc.append(z3.ForAll([kk], z3.Select(v.m, kk) >= 0))
             j, k2 = z3.Ints(fresh_name("j") + " " + fresh_name("k"))
             st.pc.append(
                 z3.ForAll(
@@ -230,8 +299,17 @@ class Exec(ExprMixin, CallMixin):
         env = dict(st.old.locals)
         env["result"] = res
         self.witness_cands = [v.e for k, v in st.locals.items() if k.startswith("_i") and isinstance(v, VInt)]
+        for nm, ty in c.exposes.items():
+            if nm in st.locals:
+                env["_x_" + nm] = st.locals[nm]
+            else:
+                env["_x_" + nm] = default_value(parse_type(ty))
         for lm in c.exit_lemmas:
             st.assume(self.eval_spec(lm, st, env, st.old))
+        for i, lm in enumerate(c.exit_asserts):
+            g = self.eval_spec(lm, st, env, st.old)
+            self.oblige(st, g, f"exit-assert[{i}]@{o.line or 'end'}", kind="cut", line=o.line)
+            st.assume(g)
         for i, e in enumerate(c.ensures):
             props = None
             if isinstance(e, tuple):
@@ -305,7 +383,7 @@ class Exec(ExprMixin, CallMixin):
                 if anchor in text:
                     self.used_anchors.add(anchor)
                     for name, e in ups:
-                        v = self.eval_spec_value(e, st, self.spec_locals(st), st.old)
+                        v = self.eval_spec_value(e, st, self.spec_locals(st), st.old, keep_assumptions=True)
                         st.locals[name] = coerce(v, st.locals[name].ty, f"ghost {name}") if name in st.locals else v
 
     def st_Expr(self, s, st):
@@ -808,7 +886,7 @@ class Exec(ExprMixin, CallMixin):
         v = self.eval_spec_value(src, st, env, old_st, at_old)
         return truthy(v)
 
-    def eval_spec_value(self, src, st, env, old_st, at_old=False):
+    def eval_spec_value(self, src, st, env, old_st, at_old=False, keep_assumptions=False):
         tree = ast.parse(src.strip(), mode="eval").body if isinstance(src, str) else src
         base = old_st if at_old else st
         tmp = base.copy()
@@ -817,7 +895,12 @@ class Exec(ExprMixin, CallMixin):
         saved = (self.in_spec, self.spec_old)
         self.in_spec += 1
         self.spec_old = old_st
+        n0 = len(tmp.pc)
         try:
-            return self.eval(tree, tmp)
+            v = self.eval(tree, tmp)
         finally:
             self.in_spec, self.spec_old = saved
+        if keep_assumptions or len(tmp.pc) > n0:
+            # facts introduced by the evaluation itself (comprehension / purified-append definitions of fresh names)
+            st.pc.extend(tmp.pc[n0:])
+        return v
